@@ -188,7 +188,9 @@ Record fixture := {
   fx_old : bool;                           (* overrides setUp itself (pre-1.3 style) instead of _setUp *)
   fx_details : list (dname * nat);         (* its addDetail calls during set-up: name, cell *)
   fx_cleanups : list (nat * option exc);   (* its own addCleanup calls: token logged, what the function raises *)
-  fx_fail : option exc }.                  (* what set-up raises after all that *)
+  fx_fail : option exc;                    (* what set-up raises after all that *)
+  fx_bad : option (nat * exc) }.           (* (k, g): evaluating the content of the detail at position k of
+                                              getDetails() raises g (a log file that is gone, ...) *)
 
 Inductive act :=
 | ADetail (n : dname) (loc : nat)            (* self.addDetail(n, content reading cell loc) *)
@@ -330,8 +332,20 @@ Definition run_fx_cleanups (cs : list (nat * option exc)) (s : st) : st * list e
   fold_left (fun se c => (add_log [LTok (fst c)] (fst se),
                           match snd c with Some e => snd se ++ [e] | None => snd se end))
             (rev cs) (s, []).
+(* gather_details(fixture.getDetails(), ...) copies the details one after the other, evaluating each:
+   the ones before the first whose evaluation raises get through, then that exception comes out *)
+Definition fx_good (fx : fixture) : list (dname * nat) :=
+  match fx_bad fx with
+  | Some (k, _) => firstn k (nl_dict (fx_details fx))
+  | None => nl_dict (fx_details fx)
+  end.
+Definition fx_eval_raise (fx : fixture) : option exc :=
+  match fx_bad fx with
+  | Some (k, g) => if Nat.ltb k (length (nl_dict (fx_details fx))) then Some g else None
+  | None => None
+  end.
 Definition fx_source (fx : fixture) : details :=
-  map (fun nl => (fst nl, CLazy (snd nl))) (nl_dict (fx_details fx)).
+  map (fun nl => (fst nl, CLazy (snd nl))) (fx_good fx).
 
 (* useFixture, testcase.py:721-758, over fixtures.Fixture.setUp / cleanUp *)
 Definition use_fixture (fx : fixture) (s : st) : st * option exc :=
@@ -341,6 +355,15 @@ Definition use_fixture (fx : fixture) (s : st) : st * option exc :=
       (* addCleanup(fixture.cleanUp); addCleanup(gather_details, fixture.getDetails(), self.getDetails()) *)
       (push (KGather fx) (push (KFxClean fx) s1), None)
   | Some e =>
+      match fx_eval_raise fx with
+      | Some g =>
+          (* a detail cannot be evaluated.  Old protocol: gather_details raises, useFixture reports the
+             traceback of what setUp raised and lets the new exception out.  New protocol:
+             Fixture.setUp's own gather_details raises first (the fixture's cleanups are not run by
+             it), useFixture finds _details still there, gathers - which raises again -, reports
+             the traceback of the first and lets the second out *)
+          (report_traceback (gather (fx_source fx) s1), Some g)
+      | None =>
       if fx_old fx then
         (* the old protocol: _details is still there; gather it, re-raise what setUp raised *)
         (gather (fx_source fx) s1, Some e)
@@ -351,6 +374,7 @@ Definition use_fixture (fx : fixture) (s : st) : st * option exc :=
         let snap := map (fun nc => (fst nc, snapshot s1 (snd nc))) (fx_source fx) in
         let '(s2, errs) := run_fx_cleanups (fx_cleanups fx) s1 in
         (gather snap s2, Some (Multi (e :: errs ++ [Exc CSetupError None])))
+      end
   end.
 
 (* fixture.cleanUp() with raise_first=True *)
@@ -403,7 +427,7 @@ Definition run_cleanup (k : cleanup) (s : st) : st * option exc :=
        | Some v => add_log [LSet a v] (set_attrs (aput a v (attrs s)) s)
        | None => add_log [LDel a] (set_attrs (adel a (attrs s)) s)
        end, None)
-  | KGather fx => (gather (fx_source fx) s, None)
+  | KGather fx => (gather (fx_source fx) s, fx_eval_raise fx)
   | KFxClean fx => fx_cleanup (fx_cleanups fx) s
   end.
 
